@@ -535,8 +535,18 @@ pub enum ExactNum {
 }
 
 impl ExactNum {
-    /// Mathematical order; `None` only when a NaN is involved.
+    /// Mathematical order, made total: NaN equals NaN and sorts above every number (as `f64::total_cmp` and the
+    /// usual SQL engines do). With IEEE semantics a value did not equal itself although `DataType` is `Eq`, and
+    /// rows holding NaN had no place in ORDER BY, DISTINCT or an index.
     pub fn partial_cmp(self, other: Self) -> Option<std::cmp::Ordering> {
+        use std::cmp::Ordering::*;
+        let nan = |x: &Self| matches!(x, Self::Float(f) if f.is_nan());
+        match (nan(&self), nan(&other)) {
+            (true, true) => return Some(Equal),
+            (true, false) => return Some(Greater),
+            (false, true) => return Some(Less),
+            _ => {}
+        }
         match (self, other) {
             (Self::Int(a), Self::Int(b)) => Some(a.cmp(&b)),
             (Self::Float(a), Self::Float(b)) => a.partial_cmp(&b),
